@@ -286,8 +286,12 @@ func fixedGens() []caseGen {
 	p4, p8 := patterns(4), patterns(8)
 	ids := uuids()
 	return []caseGen{
-		{"Bool", 256, func(i uint64) rcase { return mk("Bool", fmt.Sprintf("%02x", i), []byte{byte(i)}, 1, i != 0, mustDecode) }},
-		{"Int8", 256, func(i uint64) rcase { return mk("Int8", fmt.Sprintf("%02x", i), []byte{byte(i)}, 1, int8(i), mustDecode) }},
+		{"Bool", 256, func(i uint64) rcase {
+			return mk("Bool", fmt.Sprintf("%02x", i), []byte{byte(i)}, 1, i != 0, mustDecode)
+		}},
+		{"Int8", 256, func(i uint64) rcase {
+			return mk("Int8", fmt.Sprintf("%02x", i), []byte{byte(i)}, 1, int8(i), mustDecode)
+		}},
 		{"Int16", 65536, func(i uint64) rcase {
 			return mk("Int16", "", binary.BigEndian.AppendUint16(nil, uint16(i)), 2, int16(i), mustDecode)
 		}},
